@@ -66,8 +66,23 @@ def gen_c10_case(r, kind=None):
     upd, save = c.ops[0], c.ops[1]
     files = sorted(c.meta.get('files') or [])
     paths = [''] + [d for d in c.meta['dirs'] if d]
-    kind = kind or r.choice(['plain', 'plain', 'fault', 'badpath', 'xdev', 'loop', 'discard'])
+    kind = kind or r.choice(['plain', 'plain', 'fault', 'badpath', 'xdev', 'loop', 'discard', 'onepath', 'onepath'])
     c.meta['c10'] = kind
+    if kind == 'onepath':
+        # the single-path API: update_entry_for_path(path, new_entry_type, hashes); now and then a local file carries the
+        # name of a DIST entry
+        cand = list(files) + ['absent', 'newfile']
+        for d in r.sample(paths, min(len(paths), 2)):
+            q = (d + '/' if d else '') + 'dist-%d.tar.gz' % r.randint(0, 3)
+            if r.random() < 0.6 and t.lookup(d) is not None and t.nodes[t.lookup(d)]['k'] == 'd' and t.lookup(q) is None:
+                t.add_file(q, b'local copy of a distfile')
+                c.meta.setdefault('local_distfiles', []).append(q)
+            cand += [q, q]
+        d = r.choice(paths)
+        if t.lookup(d) is not None and t.nodes[t.lookup(d)]['k'] == 'd' and t.lookup((d + '/' if d else '') + 'newfile') is None and r.random() < 0.5:
+            t.add_file((d + '/' if d else '') + 'newfile', b'new')
+            cand += [(d + '/' if d else '') + 'newfile'] * 2
+        upd = ['update_path', r.choice(cand), r.choice(['DATA', 'DATA', 'MISC', 'EBUILD', 'MANIFEST', 'AUX']), r.choice([[], [c.opts[0]]])]
     pre = []
     for _ in range(r.randint(0, 3)):
         k = r.random()
@@ -126,7 +141,7 @@ def c10_check_case(ctx, c, out, report):
     state = {}
     kfail = next((i for i, x in enumerate(out) if x[0] != 'ok'), len(out))
     for op, res in zip(ops[:kfail], out[:kfail]):
-        if op[0] == 'update':
+        if op[0] in ('update', 'update_path'):
             upath = op[1]
         if op[0] == 'loaded':
             if saved:
